@@ -169,7 +169,8 @@ class ServerConfig:
             return None
 
         if (
-            not (self.access_control_allow_list or self.access_control_deny_list)
+            self.access_control_allow_list is None
+            and not self.access_control_deny_list
             and self.access_control_default_allow
         ):
             # No lists and default allow: nothing to enforce
